@@ -37,28 +37,36 @@ CodeAt(s, pos, w) ==
 (* the previous code or <<>> right after a clear code.                        *)
 (* Result [st, data]: "eod" | "noeod" (bits run out) | "bad" (undefined code) *)
 Str(tab, c) == IF c < 256 THEN <<c>> ELSE tab[c - 257]
-RECURSIVE RefDec(_, _, _, _, _, _)
-RefDec(s, pos, early, tab, prev, acc) ==
-  LET next == 258 + Len(tab)
-      \* after a clear code nothing is added for the first code, so the free
-      \* code the encoder is about to assign is next (prev = <<>>) or next itself
-      w == WidthFor(IF prev = <<>> THEN next - 1 ELSE next, early)
-  IN IF pos + w > 8 * Len(s) THEN [st |-> "noeod", data |-> acc]
-     ELSE LET c == CodeAt(s, pos, w) IN
-       IF c = Eod THEN [st |-> "eod", data |-> acc]
-       ELSE IF c = Clear THEN RefDec(s, pos + w, early, <<>>, <<>>, acc)
-       ELSE IF prev = <<>>
-         THEN (IF c < 256 THEN RefDec(s, pos + w, early, tab, <<c>>, Append(acc, c))
-               ELSE [st |-> "bad", data |-> acc])
+\* one code: q = [st, pos, tab, prev, acc] with st = "run" while decoding
+RefStep(s, early, q) ==
+  LET next == 258 + Len(q.tab)
+      \* after a clear code nothing is added for the first code, so the last
+      \* code the encoder has assigned is next - 1 (prev = <<>>) or next
+      w == WidthFor(IF q.prev = <<>> THEN next - 1 ELSE next, early)
+  IN IF q.pos + w > 8 * Len(s) THEN [q EXCEPT !.st = "noeod"]
+     ELSE LET c == CodeAt(s, q.pos, w) IN
+       IF c = Eod THEN [q EXCEPT !.st = "eod"]
+       ELSE IF c = Clear THEN [q EXCEPT !.pos = @ + w, !.tab = <<>>, !.prev = <<>>]
+       ELSE IF q.prev = <<>>
+         THEN (IF c < 256 THEN [q EXCEPT !.pos = @ + w, !.prev = <<c>>, !.acc = Append(@, c)]
+               ELSE [q EXCEPT !.st = "bad"])
        ELSE IF c < next
-         THEN LET str == Str(tab, c)
-                  tab2 == IF next < P12 THEN Append(tab, Append(prev, str[1])) ELSE tab
-              IN RefDec(s, pos + w, early, tab2, str, acc \o str)
+         THEN LET str == Str(q.tab, c)
+              IN [q EXCEPT !.pos = @ + w, !.prev = str, !.acc = @ \o str,
+                           !.tab = IF next < P12 THEN Append(@, Append(q.prev, str[1])) ELSE @]
        ELSE IF c = next /\ next < P12
-         THEN LET str == Append(prev, prev[1])                    \* the KwKwK case
-              IN RefDec(s, pos + w, early, Append(tab, str), str, acc \o str)
-       ELSE [st |-> "bad", data |-> acc]
-RefDecode(s, early) == RefDec(s, 0, early, <<>>, <<>>, <<>>)
+         THEN LET str == Append(q.prev, q.prev[1])                \* the KwKwK case
+              IN [q EXCEPT !.pos = @ + w, !.prev = str, !.acc = @ \o str, !.tab = Append(@, str)]
+       ELSE [q EXCEPT !.st = "bad"]
+\* iterate RefStep until the state leaves "run".  The recursion is split in
+\* two levels (blocks of 64 steps) only to keep TLC's evaluation stack shallow.
+RECURSIVE RefSteps(_, _, _, _)
+RefSteps(s, early, q, n) == IF n = 0 \/ q.st # "run" THEN q ELSE RefSteps(s, early, RefStep(s, early, q), n - 1)
+RECURSIVE RefLoop(_, _, _)
+RefLoop(s, early, q) == IF q.st # "run" THEN q ELSE RefLoop(s, early, RefSteps(s, early, q, 64))
+RefDecode(s, early) ==
+  LET q == RefLoop(s, early, [st |-> "run", pos |-> 0, tab |-> <<>>, prev |-> <<>>, acc |-> <<>>])
+  IN [st |-> q.st, data |-> q.acc]
 RefIsEncodingOf(enc, early, data) == RefDecode(enc, early) = [st |-> "eod", data |-> data]
 
 (* ---- packing a code list.  Each element is <<code, width>>.                *)
@@ -73,7 +81,7 @@ PackCodes(codes) ==
                  Out(a, val, m) == IF m >= 8 THEN Out(Append(a, val \div Pow2(m - 8)), val % Pow2(m - 8), m - 8)
                                    ELSE <<a, val, m>>
                  o == Out(acc, v, n)
-             IN Pk(i + 1, o[1], o[2], o[3])
+             IN Pk(i + 1, TLCEval(o[1]), TLCEval(o[2]), TLCEval(o[3]))
   IN Pk(1, <<>>, 0, 0)
 
 (* ---- Impl: the writer (internal/filter/lzw/writer.go).  State:            *)
@@ -87,7 +95,17 @@ PackCodes(codes) ==
 (* table is reset.  WidthBug = 0 in the real code; the negative control       *)
 (* shifts the writer's switch of the code length by one code.                 *)
 NoCode == 4096
-ImplSt0 == [dict |-> <<>>, hi |-> 257, saved |-> NoCode, out |-> << <<Clear, 9>> >>]
+\* the table: 64 buckets (by key modulo 64) of <<key, code>> pairs -- the
+\* shape of a hash table, and cheap for TLC to update
+NB == 64
+EmptyDict == [b \in 0..(NB - 1) |-> <<>>]
+Lookup(dict, key) ==      \* the code stored for key, or NoCode
+  LET bucket == dict[key % NB]
+      RECURSIVE F(_)
+      F(k) == IF k > Len(bucket) THEN NoCode ELSE IF bucket[k][1] = key THEN bucket[k][2] ELSE F(k + 1)
+  IN F(1)
+Insert(dict, key, code) == [dict EXCEPT ![key % NB] = Append(@, <<key, code>>)]
+ImplSt0 == [dict |-> EmptyDict, hi |-> 257, saved |-> NoCode, out |-> << <<Clear, 9>> >>]
 \* the codes written when code c is emitted in a state with last code hi, and
 \* whether the table was reset
 EmitCodes(c, hi, early, bug) ==
@@ -103,11 +121,13 @@ ImplRun(xs, i, dict, hi, saved, out, early, bug) ==
                 \o << <<Eod, WidthFor((IF Resets(hi, early) THEN 257 ELSE hi + 1) + bug, early)>> >>
   ELSE LET b == xs[i] IN
     IF saved = NoCode THEN ImplRun(xs, i + 1, dict, hi, b, out, early, bug)       \* first byte: a literal
-    ELSE LET key == saved * 256 + b IN
-      IF key \in DOMAIN dict THEN ImplRun(xs, i + 1, dict, hi, dict[key], out, early, bug)  \* table hit: go on
+    ELSE LET key == saved * 256 + b
+             hit == Lookup(dict, key) IN
+      IF hit # NoCode THEN ImplRun(xs, i + 1, dict, hi, TLCEval(hit), out, early, bug)     \* table hit: go on
       ELSE IF Resets(hi, early)                                                 \* out of codes: no new entry
-        THEN ImplRun(xs, i + 1, <<>>, 257, b, out \o EmitCodes(saved, hi, early, bug), early, bug)
-        ELSE ImplRun(xs, i + 1, dict @@ (key :> hi + 1), hi + 1, b, out \o EmitCodes(saved, hi, early, bug), early, bug)
+        THEN ImplRun(xs, i + 1, EmptyDict, 257, b, TLCEval(out \o EmitCodes(saved, hi, early, bug)), early, bug)
+        ELSE ImplRun(xs, i + 1, TLCEval(Insert(dict, key, hi + 1)), hi + 1, b,
+                     TLCEval(out \o EmitCodes(saved, hi, early, bug)), early, bug)
 ImplCodes(xs, early, bug) == ImplRun(xs, 1, ImplSt0.dict, ImplSt0.hi, ImplSt0.saved, ImplSt0.out, early, bug)
 ImplEncode(xs, early) == PackCodes(ImplCodes(xs, early, 0))
 
